@@ -407,6 +407,50 @@ def run_tail(case):
     return part
 
 
+def run_two_waiting(case):
+    """two transfer commands are waiting for a data connection and one connection is made: one transfer is served, the
+    other one is answered 425 (it has no data connection) - and the session continues"""
+    idle, sock, wf = case["cfg"]
+    first, second = case["verbs"]
+    part = report.Partial()
+    rig = Rig(n_sessions=1, tree=corpus.TREE, window=65536, advance=0,
+              server_kwargs={"block_size": 4, "idle_timeout": idle, "socket_timeout": sock, "wait_future_timeout": wf})
+    problems = []
+    try:
+        w = rig.world
+        s = rig.sessions[0]
+        for e in ("@connect", "USER anonymous", "EPSV", first, second, "@data"):
+            rig.ev(0, e)
+        w.settle(1)
+        if first.startswith("STOR") and s.data is not None:
+            rig.ev(0, "@dsend abc")
+            rig.ev(0, "@dclose")
+        w.settle(1)
+        rig.collect()
+        codes = [c for _, r in s.transcript[3:] for c, _ in r]
+        if s.closed():
+            problems.append({"kind": "session-ended-without-a-reply", "codes": codes})
+        elif sorted(codes) not in (sorted(["150", "150", "226", "425"]), sorted(["150", "226", "425"]), sorted(["150", "150", "200", "425"]),
+                                   sorted(["150", "200", "425"])):
+            problems.append({"kind": "two-waiting-transfers", "codes": codes})
+        else:
+            r = rig.ev(0, "PWD")
+            if [c for c, _ in (r or [])] != ["257"]:
+                problems.append({"kind": "session-not-usable-afterwards", "codes": [c for c, _ in (r or [])]})
+        part.evaluations += 1
+        part.traces += 1
+        part.transitions += w.net.n_events
+        k = report.fp(["two-waiting", case])
+        part.states.add(k)
+        part.nontrivial.add(k)
+        for p in problems:
+            part.violation({"kind": p["kind"], "script": "two-waiting", "stall": "late-data", "cfg": list(case["cfg"])},
+                           {"problem": p, "case": case}, replay={"case": case, "choices": [], "kinds": []})
+    finally:
+        rig.close()
+    return part
+
+
 def _work(item):
     case, bound, kinds = item
     part = report.Partial()
@@ -416,6 +460,8 @@ def _work(item):
         return run_chatty(tuple(case["cfg"]))
     if case.get("tail"):
         return run_tail(case)
+    if case.get("two_waiting"):
+        return run_two_waiting(case)
     try:
         for ch, res in explore(lambda c: run_stall(case, c), bound, kinds=kinds, max_exec=3000):
             if ch is None:
@@ -443,6 +489,8 @@ def build_items(tier):
     cfgs = list(itertools.product((None, IDLE), (None, SOCK), (None, WF)))
     for cfg in cfgs:
         items.append(({"chatty": True, "cfg": list(cfg)}, 0, []))
+        for verbs in (("RETR d/f", "RETR g"), ("LIST", "RETR g"), ("MLSD d", "LIST"), ("STOR new", "RETR g"), ("RETR g", "RETR g")):
+            items.append(({"two_waiting": True, "cfg": list(cfg), "verbs": list(verbs)}, 0, []))
         for verb in ("RETR d/f", "LIST", "MLSD d"):
             for sndbuf in (0, 4, 6):
                 items.append(({"tail": True, "cfg": list(cfg), "verb": verb, "sndbuf": sndbuf}, 0, []))
@@ -495,6 +543,10 @@ def run(tier, seed, t0):
 def replay(path):
     data = json.loads(open(path).read())
     rp = data["replay"]
+    if rp["case"].get("two_waiting"):
+        part = run_two_waiting(rp["case"])
+        print(json.dumps([v for v in part.violations], indent=1, default=repr))
+        return 1 if part.violations else 0
     if rp["case"].get("tail"):
         part = run_tail(rp["case"])
         print(json.dumps([v for v in part.violations], indent=1, default=repr))
